@@ -116,6 +116,18 @@ func TestC31(t *testing.T) {
 				r.Inconclusive(fmt.Sprintf("round %d: process %d hit the 240 s watchdog", i, j))
 				return
 			}
+			if p.Exit == 66 && race {
+				// The race detector's own exit status (halt_on_error=0: the build ran to its end). A goroutine-level
+				// race is C04's subject, not a statement about concurrent processes: keep the report as a note and
+				// go on to compare the outputs.
+				if reps := lib.ParseRaceLogs(filepath.Join(sb.Work, fmt.Sprintf("race%d", j)), nil); len(reps) > 0 {
+					r.Obs("processes_with_race_detector_exit", 1)
+					for _, rep := range reps {
+						r.NoteOnce("race_in_plz_process:"+rep.Key, rep.Text)
+					}
+					continue
+				}
+			}
 			if p.Exit != 0 {
 				wit["stderr"] = p.stderr
 				r.Violation("process-fails", fmt.Sprintf("process %d of %d (request %v) exited %d", j, k, p.Request, p.Exit), wit, i)
